@@ -1076,6 +1076,51 @@ func runScripted(cw *caseWriter, rep *Report, r *rand.Rand, validMsgs, wfMsgs []
 			viol("decode-"+strings.SplitN(res.obs, " ", 2)[0], map[string]interface{}{"type": tn, "bytes": hexBytes(b), "script": sizesText(sizes), "observed": res.obs})
 		}
 	}
+	// a large text string as the very last item of the message, its bytes arriving together with io.EOF: reads of 4 KiB and
+	// more bypass bufio's buffer at every nesting level, so (n > 0, io.EOF) reaches the value reader itself
+	for _, L := range []int{4096, 4100, 8192} {
+		resp := kmip.Response{Header: kmip.ResponseHeader{Version: kmip.ProtocolVersion{Major: 1, Minor: 4}, TimeStamp: time.Unix(1000, 0), BatchCount: 1},
+			BatchItems: []kmip.ResponseBatchItem{{Operation: kmip.OPERATION_ACTIVATE, ResponsePayload: kmip.ActivateResponse{UniqueIdentifier: strings.Repeat("k", L)}}}}
+		_, b := implEncode(&resp)
+		if b == nil {
+			continue
+		}
+		off := len(b) - L - (8-L%8)%8
+		for _, mode := range []int{1, 16, 37, 4096} {
+			for variant := 0; variant < 4; variant++ {
+				var sizes []int
+				switch variant {
+				case 0:
+					sizes = []int{off, len(b)}
+				case 1:
+					sizes = []int{off + 100, len(b)}
+				case 2:
+					sizes = []int{off - 3, 3, 0, len(b)}
+				default:
+					sizes = genScript(r, len(b))
+				}
+				for _, twice := range []bool{false, true} {
+					data := b
+					tn := "Response"
+					group, cmdName := "cdec", "cdec"
+					if twice {
+						data = append(append([]byte(nil), b...), b...)
+						sizes = append([]int{len(b)}, sizes...)
+						group, cmdName = "cstream", "cstream"
+					}
+					src, _ := scriptedSource(mode, data, sizes, true, io.EOF)
+					var obs string
+					if twice {
+						obs = implStream(tn, src)
+					} else {
+						obs = implDecodeFrom(tn, src, func() int { return 0 }).obs
+					}
+					cw.add(group, fmt.Sprintf("%s %s %d %s 1 eof %s", cmdName, tn, mode, sizesText(sizes), hexBytes(data)), obs)
+					rep.Distribution[fmt.Sprintf("%s:bigtail:mode=%d", cmdName, mode)]++
+				}
+			}
+		}
+	}
 	// streams through one Decoder on the scripted transport
 	var pool [][]byte
 	for _, m := range wfMsgs {
